@@ -616,7 +616,7 @@ package vegeta
 // JSON targeter: only the line read happens under the reader's mutex; everything else touches locals,
 // the caller's *tgt and fresh memory (frame), so concurrent callers interfere only through the reader.
 //@ func NewJSONTargeter$1
-//@   property C14 C15 C16
+//@   property C14 C15 C16 C02
 //@   returns (err)
 //@   guarded bufio.Reader by &rd.Mutex
 //@   requires [target-header-unset] tgt == nil || tgt.Header == nil
@@ -811,7 +811,7 @@ package vegeta
 //@   at store dec.FieldsPerRecord: assert [twelve-documented-columns] arg0 == 12 ; ghost csvFields(dec) = arg0
 
 //@ func NewCSVDecoder$1
-//@   property C07 C09 C16
+//@   property C07 C09 C16 C08
 //@   returns (err)
 //@   requires [non-nil] r != nil && dec != nil
 //@   requires [obj-twelve-fields-per-record] csvFields(dec) == 12
